@@ -125,17 +125,16 @@ Definition w_setup_rec (a b : N) : req :=
 Definition w_record (ok : bool) : req :=
   mkReq MRecord true true (Some 2) 1 true true CTMissing None None false None None ok.
 
-(* F-C11-2: RECORD over UDP whose firewall-opening write fails: the connection is closed, the session
-   stays in Server.sessions in state RECORD and its timer is not armed, so nothing ever ends it *)
-Theorem resources_released_refuted :
-  exists evs s os ss,
-    run_events cfg_all srv0 evs = Some (s, os) /\
-    v_conns s = [] /\ v_sess s = [ss] /\ s_state ss = SRecord /\ s_timer ss = false /\
-    step cfg_all s (STimeout (s_id ss)) = Some (s, OIgnored).
-Proof.
-  exists [SNew 1 false; SConn 1 (EReq w_announce); SConn 1 (EReq (w_setup_rec 0 1)); SConn 1 (EReq (w_record false))].
-  eexists. eexists. eexists. vm_compute. repeat split; reflexivity.
-Qed.
+(* regression for fix ba05e77: RECORD over UDP whose firewall-opening write fails used to leave an
+   immortal session in state RECORD (history/README_old_record_failure.txt); now the request is
+   refused, the session stays PreRecord and goes away with its connection *)
+Lemma record_start_failure_released :
+  exists s os,
+    run_events cfg_all srv0 [SNew 1 false; SConn 1 (EReq w_announce); SConn 1 (EReq (w_setup_rec 0 1));
+                             SConn 1 (EReq (w_record false))] = Some (s, os) /\
+    os = [OIgnored; OResp 200 false None; OResp 200 false (Some 2); OResp 400 true None] /\
+    v_conns s = [] /\ v_sess s = [] /\ v_rtp s = [] /\ v_rtcp s = [].
+Proof. eexists. eexists. vm_compute. repeat split; reflexivity. Qed.
 
 (* a second session from the same IP that is set up with the client ports of a recording session takes
    over its UDP registrations and removes them when it leaves: a step on one connection changes what
